@@ -59,3 +59,14 @@ Print Assumptions splitter_rejects.
 Theorem class_a_tight_sub : forall pr p, class_a_tight pr p = true -> class_a pr p = true.
 Proof. exact class_a_tight_sub_proof. Qed.
 Print Assumptions class_a_tight_sub.
+
+(* PARTIAL (full statement line_is_fold_full, refuted by `a -a`): outside class (e) the ONE chunk that
+   domain.pkg_use makes of a package.use line means what the line says token by token *)
+Theorem line_is_fold_partial : forall ts o s,
+  forallb wf_tok ts = true -> split_line ts = Some o -> class_e ts = false ->
+  same_set (apply_chunk (to_chunk o) s) (line_fold None ts s).
+Proof. exact line_is_fold_partial_proof. Qed.
+Print Assumptions line_is_fold_partial.
+Theorem line_is_fold_refuted : ~ line_is_fold_full /\ class_e [TPos 10%N; TNeg 10%N] = true.
+Proof. exact line_is_fold_refuted_proof. Qed.
+Print Assumptions line_is_fold_refuted.
